@@ -28,11 +28,12 @@ import (
 )
 
 type vxLeaseWorld struct {
-	entries  []string // lease ids with a persisted entry
-	index    []string // "token|leaseID"
-	revoked  []string // paths whose secret was revoked at the backend
-	pending  []string // lease ids handed to the expiry tracker
-	failMask int      // bit i set = collaborator i fails (0 random, 1 persist, 2 index, 3 fetch times, 4 backend revoke, 5 delete entry, 6 remove index)
+	entries   []string // lease ids with a persisted entry
+	index     []string // "token|leaseID"
+	ambiguous bool     // a failing storage write lands all the same
+	revoked   []string // paths whose secret was revoked at the backend
+	pending   []string // lease ids handed to the expiry tracker
+	failMask  int      // bit i set = collaborator i fails (0 random, 1 persist, 2 index, 3 fetch times, 4 backend revoke, 5 delete entry, 6 remove index)
 }
 
 var vxL *vxLeaseWorld
@@ -77,6 +78,11 @@ func vxRoute(r *routing.Router, ctx context.Context, req *logical.Request) (*log
 
 func vxPersistEntry(m *ExpirationManager, ctx context.Context, le *leaseEntry) error {
 	if vxFails(1) {
+		// a failed write is ambiguous: it may have reached storage all the same
+		if vxL.ambiguous {
+			vxL.entries = append(vxL.entries, le.LeaseID)
+			vxStored = append(vxStored, le)
+		}
 		return vxErr("persist failed")
 	}
 	vxL.entries = append(vxL.entries, le.LeaseID)
@@ -109,6 +115,9 @@ func vxDeleteEntry(m *ExpirationManager, ctx context.Context, le *leaseEntry) er
 
 func vxCreateIndex(m *ExpirationManager, ctx context.Context, le *leaseEntry, token string) error {
 	if vxFails(2) {
+		if vxL.ambiguous {
+			vxL.index = append(vxL.index, token+"|"+le.LeaseID)
+		}
 		return vxErr("index failed")
 	}
 	vxL.index = append(vxL.index, token+"|"+le.LeaseID)
@@ -133,7 +142,9 @@ func vxFetchLeaseTimes(m *ExpirationManager, ctx context.Context, te *logical.To
 	return &leaseEntry{ExpireTime: time.Now().Add(time.Hour)}, nil
 }
 
-func vxUpdatePending(m *ExpirationManager, le *leaseEntry) { vxL.pending = append(vxL.pending, le.LeaseID) }
+func vxUpdatePending(m *ExpirationManager, le *leaseEntry) {
+	vxL.pending = append(vxL.pending, le.LeaseID)
+}
 
 func VxRegister() {
 	ctx := namespace.RootContext(context.Background())
@@ -148,6 +159,7 @@ func VxRegister() {
 	if f2 < 7 {
 		vxL.failMask |= 1 << f2
 	}
+	vxL.ambiguous = vxBool("a failed write reached storage all the same")
 	te := &logical.TokenEntry{ID: "tok", Type: logical.TokenTypeService}
 	kind := vxChoose("token kind", 3)
 	switch kind {
